@@ -324,9 +324,9 @@ class Node:
 class SVG:
     """An SVG document."""
 
-    def __init__(self, tree, url):
+    def __init__(self, tree, url, url_fetcher):
         wrapper = ElementWrapper.from_xml_root(tree)
-        style = parse_stylesheets(wrapper, url)
+        style = parse_stylesheets(wrapper, url, url_fetcher)
         self.tree = Node(wrapper, style)
         self.url = url
         self.filters = {}
